@@ -757,7 +757,8 @@ def distinctCount : List String → Nat
 def requirementCount (g : Drg) : Nat := distinctCount g.requirementIds
 
 /-- `check_chain(id, requirements, length)` with `fuel = requirements.len() + 1 - length`: a chain
-of requirements longer than the number of elements is an error (`false`). -/
+of requirements longer than the number of elements is an error (`false`).  (The code until ba4278d; the
+depth-first search that replaced it gives the same answer: `Lemmas/DrgDfs.lean`.) -/
 def checkChain (g : Drg) : Nat → String → Bool
   | fuel, id =>
     match g.requirementsOf id with
